@@ -195,9 +195,19 @@ func (g *wgen) buildStruct(depth int, structName string) built {
 			}
 			rules, exps := g.rulesFor(sp, zero, structName, name, 4)
 			fs = append(fs, fld{reflect.StructField{Name: name, Type: v.Type(), Tag: tagOf(rules)}, v, exps})
-		case choice == 6: // time.Time: never validated
+		case choice == 6 && g.r.Bool(): // time.Time: never validated
 			fs = append(fs, fld{reflect.StructField{Name: name, Type: timeType, Tag: tagOf("required|" + g.mark())}, reflect.ValueOf(time.Time{}), nil})
 			g.feat["time-field"] = true
+		case choice == 6: // *time.Time is an ordinary pointer field: required fires when it is nil, nothing is entered otherwise
+			m := g.mark()
+			pt := reflect.PtrTo(timeType)
+			if g.r.Bool() {
+				fs = append(fs, fld{reflect.StructField{Name: name, Type: pt, Tag: tagOf("required|" + m)}, reflect.Zero(pt), []expE{{"C", joinPath(structName, name), m}}})
+			} else {
+				now := time.Date(2020, 1, 2, 3, 4, 5, 0, time.UTC)
+				fs = append(fs, fld{reflect.StructField{Name: name, Type: pt, Tag: tagOf(g.r.Pick([]string{"required|", "exist|"}) + m)}, reflect.ValueOf(&now), nil})
+			}
+			g.feat["time-pointer-field"] = true
 		default: // nested: struct / pointer(s) / slice / array / map, marked or decoy
 			childName := structName + "." + name // the walker passes structName + "." + fieldName
 			mode := g.r.Intn(7) // 0 required 1 exist 2 decoy-none 3 decoy-other-rule 4.. required/exist
@@ -362,6 +372,33 @@ func (g *wgen) buildStruct(depth int, structName string) built {
 			fs = append(fs, fld{reflect.StructField{Name: name, Type: v.Type(), Tag: tagOf(tagRule)}, v, fexps})
 		}
 	}
+	// the same object reachable through two fields: each path is validated and reported on its own
+	if g.r.Chance(30) {
+		for i := len(fs) - 1; i >= 0; i-- {
+			f := fs[i]
+			if f.val.Kind() != reflect.Ptr || f.val.IsNil() || f.val.Type().Elem().Kind() != reflect.Struct {
+				continue
+			}
+			tag := string(f.sf.Tag)
+			if !strings.Contains(tag, "required") && !strings.Contains(tag, "exist") {
+				break
+			}
+			dupName := fmt.Sprintf("F%dx", i)
+			oldPrefix, newPrefix := structName+"."+f.sf.Name, structName+"."+dupName
+			var de []expE
+			for _, e := range f.exps {
+				if strings.HasPrefix(e.path, oldPrefix+".") || strings.HasPrefix(e.path, oldPrefix+"[") {
+					de = append(de, expE{e.kind, newPrefix + e.path[len(oldPrefix):], e.text})
+				}
+			}
+			if len(de) != len(f.exps) { // a clause of the field itself (required on empty): not a shared-object case
+				break
+			}
+			fs = append(fs, fld{reflect.StructField{Name: dupName, Type: f.val.Type(), Tag: tagOf("exist")}, f.val, de})
+			g.feat["shared-pointer"] = true
+			break
+		}
+	}
 	sfs := make([]reflect.StructField, len(fs))
 	for i, f := range fs {
 		sfs[i] = f.sf
@@ -448,7 +485,7 @@ func galExps(es []expE) string {
 
 func (g *wgen) featureCell() string {
 	var fs []string
-	for _, k := range []string{"violated", "satisfied", "zero-value", "required", "unknown-rule", "empty-item", "repeated-rule", "time-field",
+	for _, k := range []string{"violated", "satisfied", "zero-value", "required", "unknown-rule", "empty-item", "repeated-rule", "time-field", "time-pointer-field", "shared-pointer",
 		"nested-value", "nil-pointer", "inner-nil-pointer", "pointer-levels-1", "pointer-levels-2", "pointer-levels-3", "slice-of-structs", "array-of-structs", "map-of-structs",
 		"nil-element", "decoy-untagged", "decoy-other-rule", "required-on-empty-container"} {
 		if g.feat[k] {
